@@ -5,6 +5,7 @@ import (
 	"go/token"
 	"go/types"
 	"math"
+	"math/bits"
 	"unicode/utf8"
 
 	"golang.org/x/tools/go/ssa"
@@ -96,6 +97,12 @@ func (in *Interp) binop(fr *frame, op token.Token, t types.Type, x, y Value) Val
 			nz := tb.Not(tb.Eq(yv, tb.BV(yv.w, 0)))
 			if !in.branchTrue(nz) {
 				fr.rtPanic("integer divide by zero")
+			}
+			if q, r, ok := in.divmodConst(xv, yv, signed); ok {
+				if op == token.QUO {
+					return q
+				}
+				return r
 			}
 			if signed {
 				if op == token.QUO {
@@ -498,3 +505,84 @@ func (in *Interp) ratBinop(fr *frame, op token.Token, x Rat, y Value) Value {
 }
 
 var _ = fmt.Sprint
+
+// divmodConst eliminates a wide division by a constant that is not a power of two: fresh q, r with
+// the defining constraints x = q*c + r, r in the range truncated division gives it, and q bounded so
+// that q*c cannot wrap. The constraints have exactly one solution for every x, so adding them to the
+// path condition changes nothing but the shape of the formula (a constant multiplier instead of a divider).
+func (in *Interp) divmodConst(x, y *T, signed bool) (q, r *T, ok bool) {
+	tb := in.tb
+	if x.IsConst() || !y.IsConst() || x.w < 32 || in.cfg.NoDivElim {
+		return nil, nil, false
+	}
+	c := y.k
+	if signed {
+		sc := sext64(c, y.w)
+		if sc <= 2 {
+			return nil, nil, false
+		}
+	}
+	if c <= 2 || c&(c-1) == 0 {
+		return nil, nil, false
+	}
+	// structurally small non-negative operands are narrowed by the term builder instead
+	if x.ub < 1<<16 {
+		return nil, nil, false
+	}
+	// structural cases: x = a*K (+ b) with c | K and b < c, no wrap-around
+	lim := uint64(1) << uint(x.w-1)
+	mulParts := func(t *T) (a *T, K uint64, ok bool) {
+		if t.op == OMul {
+			if t.args[1].IsConst() {
+				return t.args[0], t.args[1].k, true
+			}
+			if t.args[0].IsConst() {
+				return t.args[1], t.args[0].k, true
+			}
+		}
+		return nil, 0, false
+	}
+	fits := func(a *T, K uint64, extra uint64) bool {
+		hi, lo := bits.Mul64(a.ub, K)
+		return hi == 0 && lo < lim && lo+extra < lim && lo+extra >= lo
+	}
+	if a, K, ok := mulParts(x); ok && K%c == 0 && fits(a, K, 0) {
+		return tb.Mul(a, tb.BV(x.w, K/c)), tb.BV(x.w, 0), true
+	}
+	if x.op == OAdd {
+		for i := 0; i < 2; i++ {
+			u, v := x.args[i], x.args[1-i]
+			if a, K, ok := mulParts(u); ok && K%c == 0 && v.ub < c && fits(a, K, v.ub) {
+				return tb.Mul(a, tb.BV(x.w, K/c)), v, true
+			}
+		}
+	}
+	key := fmt.Sprintf("divmod:%d:%d:%v", x.id, c, signed)
+	if v, found := in.ghost[key]; found {
+		p := v.(Tuple)
+		return p[0].(*T), p[1].(*T), true
+	}
+	w := x.w
+	in.divN++
+	q = tb.Var(fmt.Sprintf("div!q%d", in.divN), w)
+	r = tb.Var(fmt.Sprintf("div!r%d", in.divN), w)
+	cw := tb.BV(w, c)
+	zero := tb.BV(w, 0)
+	def := tb.Eq(r, tb.Sub(x, tb.Mul(q, cw)))
+	var rng *T
+	if signed && !(x.ub < uint64(1)<<uint(w-1)) {
+		maxq := uint64(1)<<uint(w-1)/c + 0
+		pos := tb.And(tb.SLe(zero, x), tb.And(tb.And(tb.SLe(zero, q), tb.SLe(q, tb.BV(w, maxq))), tb.And(tb.SLe(zero, r), tb.SLt(r, cw))))
+		neg := tb.And(tb.SLt(x, zero), tb.And(tb.And(tb.SLe(q, zero), tb.SLe(tb.BV(w, -maxq), q)), tb.And(tb.SLe(r, zero), tb.SLt(tb.Neg(cw), r))))
+		rng = tb.Or(pos, neg)
+	} else {
+		maxq := mask(w) / c
+		if signed {
+			maxq = (uint64(1)<<uint(w-1) - 1) / c
+		}
+		rng = tb.And(tb.ULe(q, tb.BV(w, maxq)), tb.ULt(r, cw))
+	}
+	in.assume(tb.And(def, rng))
+	in.ghost[key] = Tuple{q, r}
+	return q, r, true
+}
